@@ -300,3 +300,23 @@ def proof_walker(ctx):
     if found is None:
         raise AnalysisError("anchor vanished: function %s not found" % q)
     return found, "gen"
+
+
+def opaque_heads(term, heads=("mut",)):
+    """Heads from `heads` occurring anywhere in a symbolic term (nested tuples).
+
+    A term that holds an element of a mutated accumulator ("mut") or an unread comprehension ("gen") is one
+    the engine did not interpret: a table rule that compares shapes cannot decide on it and must report
+    inconclusive (exit 2), never a violation (seed C14-r6-1: set() refactored into a list of (hash, node) pairs).
+    """
+    found = set()
+    stack = [term]
+    while stack:
+        t = stack.pop()
+        if isinstance(t, tuple):
+            if t and isinstance(t[0], str) and t[0] in heads:
+                found.add(t[0])
+            stack.extend(x for x in t if isinstance(x, (tuple, list)))
+        elif isinstance(t, list):
+            stack.extend(t)
+    return found
